@@ -5,7 +5,8 @@
    The model follows the repaired code (weights paired with the bus of their own xward, per-bus weighted xward shares,
    pfsoln adds the demand the solver used); the rules before the repairs are kept as *_old and refuted. *)
 From Coq Require Import ZArith QArith Qabs List Bool.
-From PPV Require Import Base.QN Base.QC C01.Model C01.Balance C10.Model C10.Proofs.
+From PPV Require Import Base.QN Base.QC C01.Model C01.Balance C10.Model C10.Proofs C10.Islands.
+From PPV Require Base.C07Graph.
 Import ListNotations.
 Open Scope Q_scope.
 
@@ -66,6 +67,57 @@ Theorem C10_xward_weight_pairing : forall xws j b,
   nth_error (xward_pq_buses xws) j = Some b <-> exists x, nth_error (filter x_on xws) j = Some x /\ x_pq x = b.
 Proof. exact xward_pairing. Qed.
 Print Assumptions C10_xward_weight_pairing.
+
+(* ---- the island search (_subnetworks) as part of the normalisation.
+   subnetworks brs bt = Base.C07Graph.components over the in-service branch rows between in-service buses, started at the
+   reference buses in bus order (auxiliary.py:907-940).  Spec of the search: every island is the undirected-path class of a
+   reference bus, the islands are pairwise disjoint and every reference bus lies in one. *)
+Theorem C10_subnetworks_partition : forall brs bt,
+  (forall isl, In isl (subnetworks brs bt) ->
+     exists x, In x (slack_buses bt) /\ forall y, In y isl <-> C07Graph.upath (island_arcs brs bt) x y) /\
+  C07Graph.pairwise_disjoint (subnetworks brs bt) /\
+  (forall x, In x (slack_buses bt) -> exists isl, In isl (subnetworks brs bt) /\ In x isl).
+Proof. exact subnetworks_spec. Qed.
+Print Assumptions C10_subnetworks_partition.
+(* the normalisation loop on ANY pairwise disjoint island list (any number of islands): the bus weights written on the buses of
+   every island sum to one (the in-place division of ALL weights by each island's sum does not disturb the islands already
+   written, later assignments do not overwrite them) *)
+Theorem C10_weights_normalised_per_island : forall buses subs ws bw,
+  C07Graph.pairwise_disjoint subs -> (forall sub, In sub subs -> NoDup sub) ->
+  norm_loop buses ws subs [] = NOk bw ->
+  forall sub, In sub subs -> sumf (bw_lookup bw) sub == 1.
+Proof. exact norm_loop_per_island0. Qed.
+Print Assumptions C10_weights_normalised_per_island.
+(* _normalise_slack_weights with its own island search: success means exactly one island, whose bus weights sum to one and
+   which has a participant (non-zero paired weight sum) *)
+Theorem C10_normalise_computed_partition : forall gens xws brs bt bw,
+  wf_branches brs bt = true -> normalise_net gens xws brs bt = NOk bw ->
+  length (subnetworks brs bt) = 1%nat /\
+  forall isl, In isl (subnetworks brs bt) -> sumf (bw_lookup bw) isl == 1 /\ ~ island_weight gens xws isl == 0.
+Proof. exact normalise_net_ok. Qed.
+Print Assumptions C10_normalise_computed_partition.
+(* error otherwise: an island in which every paired weight is zero (no participant), or more than one island / none *)
+Theorem C10_island_without_participant_is_an_error : forall gens xws brs bt isl,
+  In isl (subnetworks brs bt) ->
+  (forall b w, In (b, w) (pairing gens xws) -> In b isl -> w == 0) ->
+  exists e, normalise_net gens xws brs bt = NErr e.
+Proof. exact normalise_net_no_participant. Qed.
+Print Assumptions C10_island_without_participant_is_an_error.
+Theorem C10_several_islands_is_an_error : forall gens xws brs bt,
+  wf_branches brs bt = true -> length (subnetworks brs bt) <> 1%nat -> exists e, normalise_net gens xws brs bt = NErr e.
+Proof. exact normalise_net_several_islands. Qed.
+Print Assumptions C10_several_islands_is_an_error.
+(* non-vacuity: 0 -- 1 | 2 -- 3 with reference buses 0 and 3: two islands, each sums to one inside the loop, the zone check
+   rejects; the second island without participant is a ValueError; with the middle branch closed one island is accepted *)
+Example C10_islands_nonvacuous :
+  subnetworks wit_brs wit_bt = [[1; 0]; [2; 3]]%nat /\
+  (exists bw, norm_loop [0; 3]%nat [1; 3] (subnetworks wit_brs wit_bt) [] = NOk bw /\ bw_lookup bw 0 == 1 /\ bw_lookup bw 3 == 1) /\
+  normalise_net [mkW 0 1 false; mkW 3 3 false] [] wit_brs wit_bt = NErr 1 /\
+  normalise_net [mkW 0 1 false; mkW 3 0 false] [] wit_brs wit_bt = NErr 3 /\
+  (exists bw, normalise_net [mkW 0 1 false; mkW 3 3 false] [] [mkPbr 0 1 true; mkPbr 1 2 true; mkPbr 2 3 true] wit_bt = NOk bw /\
+              bw_lookup bw 0 == 1 # 4 /\ bw_lookup bw 3 == 3 # 4).
+Proof. exact islands_witness. Qed.
+Print Assumptions C10_islands_nonvacuous.
 
 (* the rules before the repairs are refuted by witnesses: sorted-unique pairing swapped the weights of two xwards,
    the old extraction gave two xwards each other's variable part; under the old guard G10x it was right *)
